@@ -95,6 +95,17 @@ theorem C13_add_remove_frame (db : DB) (t t' : Nat) (s s' : Bool) (a b o : Nat) 
     intro l _
     by_cases hl : l.table = t' <;> simp [hl, h]
 
+/-- the new-style `ManyToMany` accessor and its wrapper's `add` / `remove` (read from their own source:
+    `SOManyToMany.__get__`, `_ManyToManySelectWrapper`) are the same link-table statements as `RelatedJoin`'s, so
+    every theorem above about `related` / `addLink` / `removeLink` — symmetry with multiplicity, self-referential
+    joins included — holds for them verbatim -/
+theorem C13_manyToMany_eq_related : manyToMany = related ∧ m2mAdd = addLink ∧ m2mRemove = removeLink :=
+  ⟨rfl, rfl, rfl⟩
+
+theorem C13_manyToMany_symmetric (db : DB) (t a b : Nat) :
+    (manyToMany db t true a).count b = (manyToMany db t false b).count a := by
+  rw [C13_manyToMany_eq_related.1]; exact C13_related_symmetric db t a b
+
 /-- list- and query-flavoured joins agree: whatever order the query flavour's `ORDER BY` produces (any sorted
     permutation of the same relation) equals the list flavour's result whenever the keys separate the objects;
     in general both are sorted permutations of the same relation (`C13_accessor_eq_relation`). -/
